@@ -176,8 +176,10 @@ Variable cutover : Z -> Z.
 Variable fold_map : Z -> option (list Z).
 Variable fold_map_excl : Z -> Z * Z.
 Variable upper_lower : Z -> Z * Z * bool.
-Variables maxBruteForce maxLen primeRK : Z.
+Variables maxBruteForce maxLen primeRK nativeMax rtMaxLen : Z.
 Variable p : pkg.
+(* every needle the fast path hands to the runtime's native Index is within that function's contract *)
+Hypothesis Hcontract : nativeMax <= rtMaxLen.
 
 Notation ul_hack := (Impl6.ul_hack upper_lower).
 Notation K s := (key fold s).
@@ -294,7 +296,7 @@ Qed.
 
 Theorem index_refines s sub :
   wf s -> wf sub ->
-  Impl6.Index native cutover fold lower fold_map fold_map_excl upper_lower maxBruteForce maxLen primeRK p s sub = Ok (index fold s sub).
+  Impl6.Index native cutover fold lower fold_map fold_map_excl upper_lower maxBruteForce maxLen primeRK nativeMax rtMaxLen p s sub = Ok (index fold s sub).
 Proof.
   intros Hws Hwsub. unfold Impl6.Index.
   destruct sub as [|c t]; [rewrite index_empty; reflexivity|].
@@ -376,15 +378,17 @@ Proof.
         replace (negb (index fold s' sub =? -1)) with true by lia. replace (index fold s' sub <? 0) with false by lia.
         cbv iota. cbn [bind]. f_equal. lia.
   - destruct (len sub <=? maxLen) eqn:C6; [|cbn [bind]; exact Main].
-    destruct (native && (len sub <=? 32) && nonLetterASCII sub) eqn:C7.
-    { cbn [bind]. f_equal. symmetry. apply (index_caseless_ascii fold Hascii s sub Hws Hwsub Hne). lia. }
+    destruct (native && (len sub <=? nativeMax) && nonLetterASCII sub) eqn:C7.
+    { unfold native_index.
+      replace ((2 <=? len sub) && (len sub <=? rtMaxLen)) with true by (unfold len in *; lia).
+      cbn [bind]. f_equal. symmetry. apply (index_caseless_ascii fold Hascii s sub Hws Hwsub Hne). lia. }
     destruct (len s <=? maxBruteForce) eqn:C9; [|cbn [bind]; exact Main].
     rewrite (bruteforce_refines fold lower FF WF fold_map_excl upper_lower p Hcand2 s sub Hws Hwsub H2). reflexivity.
 Qed.
 
 Theorem contains_refines s sub :
   wf s -> wf sub ->
-  Impl6.Contains native cutover fold lower fold_map fold_map_excl upper_lower maxBruteForce maxLen primeRK p s sub = Ok (contains fold s sub).
+  Impl6.Contains native cutover fold lower fold_map fold_map_excl upper_lower maxBruteForce maxLen primeRK nativeMax rtMaxLen p s sub = Ok (contains fold s sub).
 Proof. intros Hws Hwsub. unfold Impl6.Contains. rewrite (index_refines s sub Hws Hwsub). cbn [bind]. rewrite contains_index. reflexivity. Qed.
 
 End Top.
